@@ -698,6 +698,7 @@ class Interp:
         """Execute the body of a PyFunc/Closure on already evaluated arguments."""
         kwargs = kwargs or {}
         node = func.node
+        self.cached_mutable(func)
         module = func.module
         env = Env(func.env if isinstance(func, Closure) else None)
         self.bind_params(node.args, args, kwargs, env, module)
@@ -1572,6 +1573,11 @@ class Interp:
             for c in o.cls.mro():
                 if name in c.class_attrs:
                     return self.class_attr(c, name)
+            for c in o.cls.mro():
+                # an attribute the class's initialiser sets, but which the state this unit starts from does not have: the state model is
+                # behind the code (e.g. a new table), nothing can be concluded -- not an AttributeError of the real object
+                if any(f == name for f, _ in c.fields) or _init_sets(c, name):
+                    raise Unsupported(f'attribute {name} is set by {c.name}.__init__ but is not part of the state this unit starts from')
             raise SymRaise('AttributeError', name)
         if isinstance(o, (PyFunc, Closure)) and name == '__name__':
             return o.node.name if hasattr(o.node, 'name') else '<lambda>'
@@ -1805,6 +1811,19 @@ class Interp:
             return c.apply(self, self.ctx, list(args), kwargs)
         return self.run_function(f, args, kwargs)
 
+    def cached_mutable(self, func):
+        """@cache / @lru_cache / @cached_property on a function that returns a set, list or dict: every caller receives the SAME object, so one
+        caller's update changes what the next one gets (frame condition: a result is not shared state)"""
+        node = func.node
+        for d in getattr(node, 'decorator_list', []):
+            dn = d.func if isinstance(d, ast.Call) else d
+            nm = dn.id if isinstance(dn, ast.Name) else dn.attr if isinstance(dn, ast.Attribute) else ''
+            if nm in ('cache', 'lru_cache', 'cached_property') and getattr(node, 'returns', None) is not None:
+                r = ast.unparse(node.returns).strip('"\'')
+                if r.split('[')[0] in ('set', 'list', 'dict', 'Set', 'List', 'Dict', 'MutableMapping', 'MutableSet', 'MutableSequence', 'defaultdict'):
+                    self.ctx.oblige(f'frame:the result of {func.qualname} is not an object shared between calls (@{nm} on a function returning {r})',
+                                    z3.BoolVal(False), kind='frame')
+
     def decorated(self, func):
         """the callable a user-defined decorator turns `func` into (None when the method has no such decorator)"""
         decs = [d for d in getattr(func.node, 'decorator_list', [])
@@ -1959,6 +1978,20 @@ def _load(t):
     t2 = copy.copy(t)
     t2.ctx = ast.Load()
     return t2
+
+
+def _init_sets(c, name):
+    for mn in ('__init__', '__post_init__'):
+        m = c.methods.get(mn)
+        if m is None or not m.node.args.args:
+            continue
+        me = m.node.args.args[0].arg
+        for n in ast.walk(m.node):
+            tg = n.targets if isinstance(n, ast.Assign) else [n.target] if isinstance(n, (ast.AnnAssign, ast.AugAssign)) else []
+            for t in tg:
+                if isinstance(t, ast.Attribute) and t.attr == name and isinstance(t.value, ast.Name) and t.value.id == me:
+                    return True
+    return False
 
 
 class _OpaqueStr:
